@@ -21,6 +21,9 @@ def runBase (value : BitVec 64) (j : Nat) : Nat := ((value >>> (62 - 2 * j)) &&&
 /-- write `n` bases of the packed run starting at `pos` -/
 def setSlice (l : List Nat) (pos n : Nat) (value : BitVec 64) : List Nat :=
   l.zipIdx.map fun (b, i) => if pos ≤ i ∧ i < pos + n then runBase value (i - pos) else b
+/-- all strings at Hamming distance 1: every position, every other base, in position-then-base order -/
+def hd1 (l : List Nat) : List (List Nat) :=
+  (List.range l.length).flatMap fun p => (List.range 4).filterMap fun ch => if l.getD p 99 = ch then none else some (l.set p ch)
 def toText (l : List Nat) : List Nat := l.map fun b => match b with | 0 => 65 | 1 => 67 | 2 => 71 | 3 => 84 | _ => 88
 def asciiToBase (ch : Nat) : Nat :=
   if ch = 65 ∨ ch = 97 then 0 else if ch = 67 ∨ ch = 99 then 1 else if ch = 71 ∨ ch = 103 then 2
